@@ -424,6 +424,11 @@ func GenFault(t *testing.T, r *rand.Rand, prop, tier string, progress *atomic.In
 	switch kind {
 	case "C13":
 		o.Faults = []store.Fault{{Kind: "panic", At: pos(anyK)}}
+		if r.Intn(5) == 0 {
+			// an ordinary storage error must not take the process down either (its error path
+			// runs code of its own: resets, early returns, sibling shards left waiting)
+			o.Faults = []store.Fault{{Kind: "err", At: pos(failK)}}
+		}
 		if r.Intn(4) == 0 {
 			// Cancel()/Close() from a second goroutine, biased to the moment Exec returns and the
 			// caller closes the query itself: a panic inside them is a crash of the host too
